@@ -95,6 +95,15 @@ def spectrum(ctx, npts, p2_plus=0, n=None, cls='Signal'):
         sig3 = getattr(lib, cls)(a, dt)
         sig3.generate_fa_spectrum()
         _cmp_spectrum(ctx, 'object_generate_', sig3.fa_spectrum, sig3.fa_freqs, vals, dt, N)
+        # a long-lived object: spectrum and frequencies were read for an earlier record of another length (another N),
+        # then the values were replaced; the frequency axis is read BEFORE the spectrum this time
+        import numpy as _np
+        for other in (3 * npts + 1, max(1, npts // 2 - 1)):
+            sig5 = getattr(lib, cls)(_np.linspace(-1.0, 2.0, other), dt)
+            _ = sig5.fa_spectrum, sig5.fa_freqs
+            sig5.reset_values(a)
+            fr5 = sig5.fa_frequencies
+            _cmp_spectrum(ctx, 'object_after_value_replacement_', sig5.fa_spectrum, fr5, vals, dt, N)
     else:
         F5, fr5 = fq.calc_fa_spectrum(sig, n=n, p2_plus=p2_plus if n is None else None)
         _cmp_spectrum(ctx, 'calc_', F5, fr5, vals, dt, N)
